@@ -31,6 +31,7 @@ pub use crate::storage::{ChainStorage, StorageConfig, TraceStorage};
 pub use crate::transform::{
     ExternalTransformation, LowRankMassMatrixStrategy, Transformation,
     VerifDiagAdaptStrategy as DiagAdaptStrategy, VerifDiagMassMatrix as DiagMassMatrix,
+    VerifDrawGradCollector as DrawGradCollector,
     VerifLowRankMassMatrix as LowRankMassMatrix,
     VerifMassMatrixAdaptStrategy as MassMatrixAdaptStrategy,
 };
@@ -262,5 +263,54 @@ pub fn point_dump<M: crate::Math>(math: &mut M, state: &State<M, TransformedPoin
         "v": math.box_array(&p.velocity).to_vec(),
         "logp": Point::logp(p), "energy": Point::energy(p), "initial_energy": Point::initial_energy(p),
         "idx": Point::index_in_trajectory(p),
+    })
+}
+
+// ---------------------------------------------------------------------------
+// Driving the mass-matrix estimators with synthetic windows (C08)
+// ---------------------------------------------------------------------------
+
+/// Feed one (draw, gradient) pair to an estimator the way the sampler does after a draw.
+pub fn mm_feed<M, S>(math: &mut M, strategy: &mut S, draw: &[f64], grad: &[f64], is_good: bool)
+where
+    M: crate::Math,
+    S: MassMatrixAdaptStrategy<M, Collector = DrawGradCollector<M>>,
+{
+    let mut collector = strategy.new_collector(math);
+    math.read_from_slice(&mut collector.draw, draw);
+    math.read_from_slice(&mut collector.grad, grad);
+    collector.is_good = is_good;
+    strategy.update_estimators(math, &collector);
+}
+
+/// `MassMatrixAdaptStrategy::init` at a point with the given position and gradient.
+pub fn mm_init<M, S, R>(
+    math: &mut M,
+    strategy: &mut S,
+    matrix: &mut S::Transformation,
+    position: &[f64],
+    gradient: &[f64],
+    rng: &mut R,
+) -> Result<(), crate::NutsError>
+where
+    M: crate::Math,
+    S: MassMatrixAdaptStrategy<M>,
+    R: rand::Rng + ?Sized,
+{
+    let mut point = <TransformedPoint<M> as Point<M>>::new(math);
+    math.read_from_slice(&mut point.untransformed_position, position);
+    math.read_from_slice(&mut point.untransformed_gradient, gradient);
+    let mut options = NutsOptions::default();
+    strategy.init(math, &mut options, matrix, &point, rng)
+}
+
+/// All scales of a diagonal transformation.
+pub fn diag_dump<M: crate::Math>(math: &mut M, mm: &DiagMassMatrix<M>) -> Json {
+    json!({
+        "stds": bits_vec(&math.box_array(mm.stds())),
+        "inv_stds": bits_vec(&math.box_array(mm.inv_stds())),
+        "mean": bits_vec(&math.box_array(mm.mean())),
+        "logdet": bits(mm.logdet()),
+        "id": Transformation::transformation_id(mm, math),
     })
 }
